@@ -1,0 +1,54 @@
+//go:build verif
+
+package dhcp4_spoofer
+
+import (
+	"net"
+	"net/netip"
+	"sort"
+	"time"
+)
+
+// VerifLease is a snapshot of one lease entry.
+type VerifLease struct {
+	ClientID   []byte
+	State      State
+	MAC        net.HardwareAddr
+	IP         netip.Addr
+	IPOffer    netip.Addr
+	XID        []byte
+	Name       string
+	SubnetID   string
+	DHCPExpiry time.Time
+}
+
+// VerifReset restores the package level state to its initial value.
+// Verification hook: only compiled with -tags verif.
+func VerifReset() {
+	nextAttack = time.Now()
+	fakeMAC = net.HardwareAddr{0xff, 0xee, 0xdd, 0xcc, 0xbb, 0x0}
+}
+
+// VerifLeases returns a snapshot of the lease table sorted by client id.
+func (h *Handler) VerifLeases() []VerifLease {
+	h.Lock()
+	defer h.Unlock()
+	list := make([]VerifLease, 0, len(h.table))
+	for _, v := range h.table {
+		l := VerifLease{ClientID: dupBytes(v.ClientID), State: v.State, MAC: dupMAC(v.Addr.MAC), IP: v.Addr.IP,
+			IPOffer: v.IPOffer, XID: dupBytes(v.XID), Name: v.Name, DHCPExpiry: v.DHCPExpiry}
+		if v.subnet != nil {
+			l.SubnetID = v.subnet.ID
+		}
+		list = append(list, l)
+	}
+	sort.Slice(list, func(i, j int) bool { return string(list[i].ClientID) < string(list[j].ClientID) })
+	return list
+}
+
+// VerifCursors returns the next IP allocation cursors of both subnets and the time of the next attack.
+func (h *Handler) VerifCursors() (net1 netip.Addr, net2 netip.Addr, attack time.Time) {
+	h.Lock()
+	defer h.Unlock()
+	return h.net1.nextIP, h.net2.nextIP, nextAttack
+}
